@@ -777,6 +777,7 @@ fn run_build(cx: &mut Ctx, case: &Value, _force_coq: bool) {
     let mut coq_term: Option<String> = None;
     let small = recs.len() <= 140 && recs.iter().map(|d| d.len()).sum::<usize>() <= 1600;
     let recs_coq = format!("[{}]", recs.iter().map(|d| coq_bytes(d)).collect::<Vec<_>>().join("; "));
+    let plain_env_dir = cx.env.dir.clone();
     let r = guarded(|| -> Option<String> {
         match kind {
             "zipoffset" | "zipoffset_batch" => {
@@ -905,6 +906,50 @@ fn run_build(cx: &mut Ctx, case: &Value, _force_coq: bool) {
                 if s.len() != shadow.len() { return Some(format!("len() = {} but {} records are live", s.len(), shadow.len())); }
                 None
             }
+            "plain_seeded" => {
+                // PlainBlobStore::new on a directory that already holds record files (ids given), then puts: a new id must
+                // never be the id of a live record; new() itself must not panic
+                let ids: Vec<u64> = case["ids"].as_array().map(|a| a.iter().map(|x| x.as_u64().unwrap_or(0)).collect()).unwrap_or_default();
+                let dir = format!("{}/plain_seeded_{}", plain_env_dir, case.to_string().len() ^ (ids.iter().sum::<u64>() as usize));
+                let _ = std::fs::remove_dir_all(&dir);
+                if std::fs::create_dir_all(&dir).is_err() { return Some("cannot create the directory".into()); }
+                let mut shadow: HashMap<RecordId, Vec<u8>> = HashMap::new();
+                let mut seeded: Vec<(Vec<u8>, Vec<u8>)> = vec![];
+                for (id, d) in ids.iter().zip(recs.iter()) {
+                    if std::fs::write(format!("{}/{}", dir, id), d).is_err() { return Some("cannot write a record file".into()); }
+                    shadow.insert(*id as RecordId, d.clone());
+                }
+                for (id, d) in &shadow { seeded.push((format!("{}", id).into_bytes(), d.clone())); }
+                seeded.sort();
+                let res = (|| -> Option<String> {
+                    let mut s = match guarded(|| PlainBlobStore::new(&dir)) {
+                        Ok(Ok(s)) => s,
+                        Ok(Err(e)) => return Some(format!("new() on a directory of record files failed: {}", e)),
+                        Err(p) => { coq_term = Some(format!("XPlainOpen {} [] [[0]%N] []", coq_table(&seeded))); return Some(format!("new() on a directory of record files panicked: {}", p)); }
+                    };
+                    let mut all0: Vec<RecordId> = shadow.keys().copied().collect(); all0.sort();
+                    for id in all0 { if let Some(x) = probe(&s, id, &shadow) { return Some(format!("after new(): {}", x)); } }
+                    if s.len() != shadow.len() { return Some(format!("after new(): len() = {} but the directory holds {} records", s.len(), shadow.len())); }
+                    let mut ops: Vec<String> = vec![]; let mut obs: Vec<String> = vec!["[1]%N".into()];
+                    for k in 0..case["puts"].as_u64().unwrap_or(3) {
+                        let d = vec![200u8, k as u8];
+                        match s.put(&d) {
+                            Ok(id) => { if shadow.contains_key(&id) { return Some(format!("put #{} returned id {} which is the id of a live record", k, id)); }
+                                        ops.push(format!("PX (XO (MPut {}))", coq_bytes(&d))); obs.push(format!("[{}]%N", id)); shadow.insert(id, d); }
+                            Err(e) => return Some(format!("put failed: {}", e)),
+                        }
+                    }
+                    let mut all: Vec<RecordId> = shadow.keys().copied().collect(); all.sort();
+                    for id in all { if let Some(x) = probe(&s, id, &shadow) { return Some(x); } }
+                    if s.len() != shadow.len() { return Some(format!("len() = {} but {} records are live", s.len(), shadow.len())); }
+                    let mut listing: Vec<(Vec<u8>, Vec<u8>)> = std::fs::read_dir(&dir).ok()?.filter_map(|e| e.ok()).map(|e| (e.file_name().to_string_lossy().as_bytes().to_vec(), std::fs::read(e.path()).unwrap_or_default())).collect();
+                    listing.sort();
+                    coq_term = Some(format!("XPlainOpen {} [{}] [{}] {}", coq_table(&seeded), ops.join("; "), obs.join("; "), coq_table(&listing)));
+                    None
+                })();
+                let _ = std::fs::remove_dir_all(&dir);
+                res
+            }
             "nlt_builder" => {
                 let cfg = match cfgname { "perf" => TrieBlobStoreConfig::performance_optimized(), "mem" => TrieBlobStoreConfig::memory_optimized(), "sec" => TrieBlobStoreConfig::security_optimized(), _ => TrieBlobStoreConfig::default() };
                 let mut b = match NestLoudsTrieBlobStoreBuilder::<RankSelectInterleaved256>::new(cfg) { Ok(b) => b, Err(e) => return Some(format!("builder construction failed: {}", e)) };
@@ -928,10 +973,12 @@ fn run_build(cx: &mut Ctx, case: &Value, _force_coq: bool) {
     });
     match r { Ok(x) => failure = x, Err(p) => failure = Some(format!("panicked: {}", p)) }
     if let Some(m) = failure {
-        let class = if kind == "memory_seeded" && seeded_wraps(case) { Some("memory_id_wraparound") } else { None };
+        let class = if kind == "memory_seeded" && seeded_wraps(case) { Some("memory_id_wraparound") } else if kind == "plain_seeded" && seeded_wraps(case) { Some("plain_id_wraparound") } else { None };
         cx.sum.fail(&cell, class, case.clone(), &m);
+        // the model predicts the panic of new() as well
+        if let (Some(t), true) = (coq_term, kind == "plain_seeded" && class.is_some()) { cx.shards.push(t, case.clone()); }
     } else if let Some(t) = coq_term {
-        if _force_coq || cx.shards.len() < cx.budget { cx.shards.push(format!("XOld ({})", t), case.clone()); }
+        if _force_coq || cx.shards.len() < cx.budget { cx.shards.push(if t.starts_with("XPlainOpen") { t } else { format!("XOld ({})", t) }, case.clone()); }
     }
 }
 
@@ -1211,6 +1258,17 @@ pub fn run(args: &Args) {
         let c = json!({"cell": "memory_seeded", "kind": "build", "ids": ids, "recs": recs, "puts": rng.range(1, 4)});
         run_case(&mut cx, &c, false);
     }
+    // 4b. PlainBlobStore opened on a directory that already holds record files, incl. names next to u32::MAX
+    for _ in 0..(if args.thorough { 200 } else { 24 }) {
+        let n = rng.range(1, 5);
+        let base: u64 = match rng.below(6) { 0 => 0, 1 => 1, 2 => rng.below(100000), 3 => 1 << 31, 4 => u32::MAX as u64 - n - rng.below(6), _ => rng.below(u32::MAX as u64 - 10) };
+        let mut ids: Vec<u64> = (0..n).map(|i| (base + i * rng.range(1, 3)).min(u32::MAX as u64)).collect();
+        ids.dedup();
+        if rng.chance(1, 3) { ids.insert(0, 1); ids.dedup(); }
+        let recs: Vec<Value> = ids.iter().map(|_| json!([1, rng.below(6), rng.below(100)])).collect();
+        let c = json!({"cell": "plain_seeded", "kind": "build", "ids": ids, "recs": recs, "puts": rng.range(1, 4)});
+        run_case(&mut cx, &c, false);
+    }
     // 5. keyed histories on the trie store
     for round in 0..(if args.thorough { 400 } else { 80 }) {
         let spec = ["nlt_keyed:default", "nlt_keyed:perf", "nlt_keyed:mem", "nlt_keyed:sec"][round % 4];
@@ -1233,7 +1291,7 @@ pub fn run(args: &Args) {
     }
     cx.sum.dist_max("coq_cases", cx.shards.len() as u64);
     for (cell, _) in cx.sum.cells.clone() {
-        let modelled = cell.strip_prefix("history/").map(|sp| xmodel_of(sp).is_some()).unwrap_or(false) || cell.starts_with("build/zipoffset:c0") || cell.starts_with("build/mixed") || cell.starts_with("build/simplezip") || cell == "build/zeroputs";
+        let modelled = cell.strip_prefix("history/").map(|sp| xmodel_of(sp).is_some()).unwrap_or(false) || cell.starts_with("build/zipoffset:c0") || cell.starts_with("build/mixed") || cell.starts_with("build/simplezip") || cell == "build/zeroputs" || cell == "build/plain_seeded";
         if !modelled { cx.sum.cell_status(&cell, "S-only"); }
     }
     let sh = cx.shards.write(&args.out);
